@@ -126,9 +126,20 @@ func c05sessionCase(c *runner.Ctx, i int) {
 		sc.mutated = r.Intn(4) == 0
 		connIdx := r.Intn(3)
 		atomic.StoreInt32(&sc.left, int32(1+r.Intn(2)))
+		// the same OPTIONS request is also the driver's heartbeat (every connection, one second after it was
+		// set up, from a goroutine of the driver's own): answer that one with the unexpected frame instead
+		heartbeat := r.Intn(5) == 0
+		if heartbeat {
+			step = cqlref.OpOptions
+			atomic.StoreInt32(&sc.left, int32(1+r.Intn(3)))
+			c.Add("unexpected_reply_to_heartbeat", 1)
+		}
 		for _, n := range cl.Nodes {
 			n.OnHandshake = func(conn *fakenode.ServerConn, op byte) bool {
-				if op != step || (connIdx > 0 && conn.Index < connIdx) || !sc.take() {
+				if heartbeat && !conn.Ready() {
+					return false
+				}
+				if op != step || (connIdx > 0 && conn.Index < connIdx && !heartbeat) || !sc.take() {
 					return false
 				}
 				reqs := conn.AllRequests()
@@ -136,9 +147,9 @@ func c05sessionCase(c *runner.Ctx, i int) {
 				return true
 			}
 		}
-		key = fmt.Sprintf("v%d handshake step %#x on connections >= %d answered with kind %d (mutated=%v, auth=%v)", version, step, connIdx, sc.kind, sc.mutated, useAuth)
+		key = fmt.Sprintf("v%d handshake step %#x on connections >= %d answered with kind %d (mutated=%v, auth=%v, as reply to the heartbeat=%v)", version, step, connIdx, sc.kind, sc.mutated, useAuth, heartbeat)
 		c.Add("unexpected_in_handshake", 1)
-		c.Eval(runner.H("c05sess-hs", version, step, sc.kind, sc.mutated, useAuth), true)
+		c.Eval(runner.H("c05sess-hs", version, step, sc.kind, sc.mutated, useAuth, heartbeat), true)
 		var sess *gocql.Session
 		if pan := c05call(c, "CreateSession", func() { sess, _ = cfg.CreateSession() }); pan != nil {
 			report("CreateSession", pan)
@@ -150,9 +161,20 @@ func c05sessionCase(c *runner.Ctx, i int) {
 				}
 			}
 			time.Sleep(time.Duration(r.Intn(20)) * time.Millisecond)
+			if heartbeat {
+				time.Sleep(1300 * time.Millisecond)
+				if pan := c05call(c, "Query.Exec", func() { sess.Query("LIST after heartbeat").Exec() }); pan != nil {
+					report("Query.Exec", pan)
+				}
+			}
 			c05call(c, "Session.Close", sess.Close)
 		}
 	default:
+		prepShape := 0
+		if r.Intn(3) == 0 {
+			prepShape = 1 + r.Intn(4)
+			c.Add("inconsistent_prepared_answers", 1)
+		}
 		handler := func(conn *fakenode.ServerConn, req *fakenode.Req) {
 			if sc.onOps[req.Header.Op] && sc.take() {
 				answer(conn, req)
@@ -163,6 +185,19 @@ func c05sessionCase(c *runner.Ctx, i int) {
 				ps := &cqlref.PreparedSpec{ID: []byte("P:" + req.Statement),
 					Bind:   cqlref.Metadata{Global: true, ColCount: 1, Columns: []cqlref.Column{{Keyspace: "ks", Table: "t", Name: "k", Type: &cqlref.Type{ID: cqlref.TVarchar}}}},
 					Result: cqlref.Metadata{Global: true, ColCount: 1, Columns: []cqlref.Column{{Keyspace: "ks", Table: "t", Name: "v", Type: &cqlref.Type{ID: cqlref.TInt}}}}}
+				// PREPARED answers that parse but describe the statement inconsistently
+				switch prepShape {
+				case 1: // bind markers announced, not described ("no metadata" flag on the bind metadata)
+					ps.Bind = cqlref.Metadata{NoMetadata: true, ColCount: 1 + int(req.Seq%2)}
+				case 2: // partition-key index beyond the bind markers
+					ps.Bind.PKIndexes = []int{[]int{1, 7, 65535}[int(req.Seq)%3]}
+				case 3: // more markers announced than described is not expressible; fewer values than markers: two markers
+					ps.Bind.ColCount = 2
+					ps.Bind.Columns = append(ps.Bind.Columns, cqlref.Column{Keyspace: "ks", Table: "t", Name: "k2", Type: &cqlref.Type{ID: cqlref.TInt}})
+					ps.Bind.PKIndexes = []int{1, 0}
+				case 4: // result metadata announced, not described
+					ps.Result = cqlref.Metadata{NoMetadata: true, ColCount: 1}
+				}
 				conn.Reply(req, cqlref.OpResult, nil, cqlref.BodyPrepared(conn.Version, ps))
 			default:
 				conn.ReplyVoid(req)
@@ -308,6 +343,29 @@ func c05sessionCase(c *runner.Ctx, i int) {
 					report("Query.Exec", pan)
 				}
 				time.Sleep(time.Duration(r.Intn(15)) * time.Millisecond)
+			}
+		}
+		if prepShape > 0 {
+			key += fmt.Sprintf(" [PREPARED shape %d]", prepShape)
+			stmt := fmt.Sprintf("SELECT v FROM ks.t WHERE k = ? /* shape %d %d */", prepShape, i)
+			if pan := c05call(c, "Query.GetRoutingKey", func() { sess.Query(stmt, "key").GetRoutingKey() }); pan != nil {
+				report("Query.GetRoutingKey", pan)
+			}
+			if pan := c05call(c, "Iter.Scan", func() { c05drain(sess.Query(stmt, "key").Iter(), 0) }); pan != nil {
+				report("Iter", pan)
+			}
+			if pan := c05call(c, "Iter.Scan", func() { c05drain(sess.Query(stmt, "key", 2).Iter(), 0) }); pan != nil {
+				report("Iter", pan)
+			}
+			if version >= 2 {
+				if pan := c05call(c, "ExecuteBatch", func() {
+					b := sess.NewBatch(gocql.UnloggedBatch)
+					b.Query(stmt, "key")
+					b.GetRoutingKey()
+					sess.ExecuteBatch(b)
+				}); pan != nil {
+					report("ExecuteBatch", pan)
+				}
 			}
 		}
 		time.Sleep(time.Duration(r.Intn(30)) * time.Millisecond)
